@@ -121,7 +121,18 @@ def _norm_expected(x):
     return norm(x)
 
 
+# description variant "b": the same names with other datatypes (another node with an equally named module); only wire
+# value w2 is importable, and it gives ANOTHER python value than under variant "a" (abstract value id 'w2b')
+_INT = {'type': 'int', 'min': -100, 'max': 100}
+PTAB_B = {
+    'value': (_INT, 3), 'target': (_INT, 3), '_target': (_INT, 3), '_value': (_INT, 3),
+    'x': ({'type': 'enum', 'members': {'other': 5}}, ('enum', 5, 'other')),
+    'y': ({'type': 'struct', 'members': {'a': {'type': 'double', 'min': 2, 'max': 9}}}, {'a': 2.0}),
+    's': ({'type': 'tuple', 'members': [{'type': 'enum', 'members': {'two': 2}}, {'type': 'bool'}]}, (('enum', 2, 'two'), False)),
+}
 EXPECT = {p: {json.dumps(_norm_expected(v), sort_keys=True): w for w, v in tab[3].items()} for p, tab in PTAB.items()}
+for _p, (_di, _v) in PTAB_B.items():
+    EXPECT[_p][json.dumps(_norm_expected(_v), sort_keys=True)] = 'w2b'
 TEXT_ID = {v: k for k, v in TEXTS.items()}
 
 
@@ -168,13 +179,13 @@ def a_entry(pname, value, ts, err):
     return [a_value(pname, value), tick, 'none', 'none']
 
 
-def g_desc(desc):
+def g_desc(desc, variant='a'):
     """set of (module, parameter) -> descriptive data of a generated node"""
     mods = {}
     for m, p in sorted(desc):
         acc = mods.setdefault(m, {'accessibles': {}, 'description': m, 'interface_classes': [],
                                   'implementation': 'gen', 'features': []})['accessibles']
-        acc[PTAB[p][0]] = {'description': p, 'datainfo': PTAB[p][1], 'readonly': False}
+        acc[PTAB[p][0]] = {'description': p, 'datainfo': PTAB_B[p][0] if variant == 'b' else PTAB[p][1], 'readonly': False}
     for md in mods.values():
         for c in DESC_CMDS:     # predefined command name, the same with an underscore (custom), a custom one
             md['accessibles'][c] = {'description': 'a command', 'datainfo': {'type': 'command'}}
@@ -276,7 +287,7 @@ class _ScriptIO:
 class MsgWorld:
     """a real SecopClient, its real receive loop, a scripted connection, a controlled clock"""
 
-    def __init__(self, desc):
+    def __init__(self, desc, variant='a'):
         boot()
         import frappy.client as fc
 
@@ -289,6 +300,8 @@ class MsgWorld:
         self.fc = fc
         self.clock = _Clock()
         self.client = Client('fake://peer', log=LoggerStub('client'))
+        self.other = Client('fake://other', log=LoggerStub('other'))    # another client object of the same process
+        self.variant = variant
         self.client.io = _ScriptIO(self)
         self.client._running = True
         self.sent = []
@@ -306,9 +319,10 @@ class MsgWorld:
         self.names0, self.names = self.names, None
 
     # -- gamma
-    def describe(self, desc):
+    def describe(self, desc, variant=None):
         self.desc = sorted(tuple(k) for k in desc)
-        self.client._init_descriptive_data(g_desc(self.desc))
+        self.variant = variant or self.variant
+        self.client._init_descriptive_data(g_desc(self.desc, self.variant))
         self.names = self.a_names()      # reported with the next observation
 
     def make_cb(self, cb):
@@ -492,7 +506,10 @@ class MsgWorld:
         elif act == 'tick':
             self.clock.tick = st['now'] if 'now' in st else st['exp']['n']
         elif act in ('describe', 'descr'):
-            self.describe(st['desc'])
+            self.describe(st['desc'], st.get('variant'))
+        elif act == 'other':    # the other client of the process is told (another) description with the same module names
+            self.other._init_descriptive_data(g_desc(sorted(tuple(k) for k in st['desc']), st['variant']))
+            self.names = self.a_names()
         else:
             raise MachineryError('unknown step %r' % (st,))
 
@@ -548,7 +565,7 @@ def _got_obs(o, exp):
 def _replay(beh):
     """replay one TLC behaviour; returns None or the first mismatch"""
     try:
-        w = MsgWorld(beh[0]['desc'])
+        w = MsgWorld(beh[0]['desc'], beh[0].get('variant', 'a'))
         obs = w.run(beh[1:])
     except MachineryError:
         raise
@@ -607,7 +624,7 @@ def _random_trace(seed_n):
     seed, n = seed_n
     rnd = random.Random(seed)
     desc = _rand_desc(rnd)
-    w = MsgWorld(desc)
+    w = MsgWorld(desc, rnd.choice(['a', 'a', 'b']))
     steps = []
     regs = []
     now = 0
@@ -670,18 +687,20 @@ def _random_trace(seed_n):
         elif r < 0.97:
             for _ in range(rnd.choice([1, 1, 2, 6])):    # 5 silent periods in a row make the client send a ping
                 steps.append({'ev': 'idle'})
-        else:
+        elif rnd.random() < 0.5:
             desc = _rand_desc(rnd)
-            steps.append({'ev': 'descr', 'desc': [list(k) for k in desc]})
+            steps.append({'ev': 'descr', 'desc': [list(k) for k in desc], 'variant': rnd.choice(['a', 'b'])})
+        else:   # another client object of the process is told a description with the same module names
+            steps.append({'ev': 'other', 'desc': [list(k) for k in _rand_desc(rnd)], 'variant': rnd.choice(['a', 'b'])})
     return _record(w, steps)
 
 
 def _record(w, steps):
     """run the steps through the real receive loop and write down what TLC has to explain"""
-    first_desc = w.desc
+    first_desc, first_variant = w.desc, w.variant
     obs = w.run(steps)
     done = [st for st in steps if not any(st is x for x in w.skipped)]
-    trace = [dict({'ev': 'descr', 'desc': [list(k) for k in first_desc], 'cache': []}, **w.names0)]
+    trace = [dict({'ev': 'descr', 'desc': [list(k) for k in first_desc], 'variant': first_variant, 'cache': []}, **w.names0)]
     for st, o in zip(done, obs):
         ev = {k: v for k, v in st.items() if k not in ('maybe', 'single')}
         ev['cache'] = [{'m': c[0], 'p': c[1], 'e': _rec(c[2:])} for c in o['cache']]
@@ -691,7 +710,7 @@ def _record(w, steps):
             ev['calls'] = [{'cb': c['cb'], 'm': c['m'], 'p': c['p'], 'e': _rec(c['e'])} for c in o['calls']]
             ev['released'] = o['released']
             ev['seen'] = [{'m': c[0], 'p': c[1], 'e': _rec(c[2:])} for c in o['seen']]
-        elif st['ev'] == 'descr':
+        elif st['ev'] in ('descr', 'other'):
             ev.update(o.get('names') or {'idmap': [], 'intmap': []})
         elif st['ev'] == 'register':
             ev['icalls'] = [{'m': c['m'], 'p': c['p'], 'e': _rec(c['e'])} for c in o['calls']
@@ -750,12 +769,29 @@ class _TLog(LoggerStub):
         return _TLog(self.name + '.' + name, self)
 
 
+OTHER_NODE = False    # datatypes of the equally named parameters of ANOTHER node (same module name, same process)
+
+
 def _datatypes():
+    from frappy.datatypes import ArrayOf, BLOBType, BoolType, EnumType, FloatRange, IntRange, ScaledInteger, \
+        StringType, StructOf, TupleOf
+    if OTHER_NODE:
+        return dict(_datatypes_own(), **{
+            'double': IntRange(-1000, 1000), 'int': FloatRange(-50, 50), 'int64': FloatRange(), 'uint64': FloatRange(),
+            'scaled': ScaledInteger(0.5, -5, 5), 'enum': EnumType('e', off=10, low=11, high=15), 'string': BLOBType(0, 12),
+            'blob': StringType(0, 8), 'bool': IntRange(0, 1), 'array': ArrayOf(StringType(0, 3), 0, 4),
+            'struct': StructOf(optional=['b', 'c'], a=StringType(0, 3), b=IntRange(0, 9), c=BoolType()), 'tuple': TupleOf(StringType(0, 3), BoolType())})
+    return _datatypes_own()
+
+
+def _datatypes_own():
     from frappy.datatypes import ArrayOf, BLOBType, BoolType, EnumType, FloatRange, IntRange, ScaledInteger, \
         StringType, StructOf, TupleOf
     return {
         'double': FloatRange(-1000, 1000),
         'int': IntRange(-50, 50),
+        'int64': IntRange(-2 ** 63, 2 ** 63 - 1),
+        'uint64': IntRange(0, 2 ** 64 - 1),
         'scaled': ScaledInteger(0.01, -5, 5),
         'bool': BoolType(),
         'enum': EnumType('e', off=0, low=1, high=5),
@@ -771,7 +807,7 @@ def _datatypes():
 
 
 BIGKINDS = ['bigblob', 'bigstring', 'bigarray']     # frames of tens of kB
-KINDS = ['double', 'int', 'scaled', 'bool', 'enum', 'string', 'blob', 'array', 'tuple', 'struct', 'arrstruct', 'tupnest']
+KINDS = ['int64', 'uint64', 'double', 'int', 'scaled', 'bool', 'enum', 'string', 'blob', 'array', 'tuple', 'struct', 'arrstruct', 'tupnest']
 SCALE = {'scaled': 0.01}
 ENUMS = {'enum': {'off': 0, 'low': 1, 'high': 5}, 'tupnest.0': {'x': 1, 'y': 2}}
 
@@ -805,6 +841,11 @@ def _gen_value(kind, rnd, partial=True, path=None):
         if TEXTSAFE:
             v = rnd.choice([0.0, 2.5, -1e9, 1e300, 1e-300, 123456.0, round(rnd.uniform(-99, 99), 3)])
         return atom('f:' + repr(float(v)), v)
+    if kind in ('int64', 'uint64'):     # exact integers beyond 2^53 (not representable as float)
+        anchors = [53, 62] + ([63] if kind == 'uint64' else [])
+        v = rnd.choice([2 ** 53 + 1, 2 ** 62 + 1, 2 ** 63 - 1, 2 ** rnd.choice(anchors) + rnd.randint(-5, 5) | 1, rnd.randint(0, 9)]
+                       + ([2 ** 63 + 1, 2 ** 64 - 1] if kind == 'uint64' else [-(2 ** 53) - 1, -(2 ** 63)]))
+        return atom(_bigint(v), v)
     if kind in ('int', 'digit'):
         lo, hi = (-50, 50) if kind == 'int' else (0, 9)
         v = rnd.choice([lo, hi, 0, rnd.randint(lo, hi)])
@@ -856,6 +897,15 @@ def _gen_value(kind, rnd, partial=True, path=None):
     raise MachineryError('unknown kind ' + kind)
 
 
+def _bigint(v):
+    """an integer as symbolic position anchor + offset (TLC never sees the number)"""
+    if abs(v) < 2 ** 31:
+        return 'i:%d' % v
+    sign = '-' if v < 0 else ''
+    k = max(e for e in (31, 53, 62, 63, 64) if 2 ** e <= abs(v) + 8)
+    return 'i:%s2^%d%+d' % (sign, k, abs(v) - 2 ** k)
+
+
 def _digest(tag, raw):
     return '%s:%d:%s' % (tag, len(raw), hashlib.sha1(raw).hexdigest()[:16])
 
@@ -873,6 +923,8 @@ def a_tree(kind, v, path=None):
             return {'j': 'atom', 'v': _digest('a', bytes(v)) if ok else '?%r' % type(v)}
         if kind in ('double', 'cdouble'):
             return {'j': 'atom', 'v': 'f:' + repr(v)} if isinstance(v, float) else {'j': 'atom', 'v': '?%r' % (v,)}
+        if kind in ('int64', 'uint64'):
+            return {'j': 'atom', 'v': _bigint(v) if isinstance(v, int) and not isinstance(v, bool) else '?%r' % (v,)}
         if kind in ('int', 'digit'):
             return {'j': 'atom', 'v': 'i:%d' % v} if isinstance(v, int) and not isinstance(v, bool) else {'j': 'atom', 'v': '?%r' % (v,)}
         if kind == 'scaled':
@@ -908,6 +960,16 @@ def a_tree(kind, v, path=None):
 
 BASE = {'value': 'double', 'target': 'double', '_target': 'double'}     # parameter name -> kind of its datatype (a predefined accessible name among the custom ones)
 PKINDS = KINDS + ['value', 'target']
+
+
+def _make_other_class():
+    """the driver class of another node: same module / accessible names, other datatypes"""
+    global OTHER_NODE
+    OTHER_NODE = True
+    try:
+        return _make_driver_class()
+    finally:
+        OTHER_NODE = False
 
 
 def _make_driver_class(without=()):
@@ -1273,6 +1335,13 @@ def _e2e_batch(arg):
             if _time.time() > deadline:
                 raise MachineryError('proxy did not connect to node 1: state %r' % pxclient.state)
             _time.sleep(0.01)
+        # ANOTHER client object in this process talks to another node whose module has the same name and equally named
+        # accessibles with other datatypes; it gets its description after the clients under test (and once more
+        # half way): clients are isolated, nothing below may notice
+        n3 = Node('n3', {'drv': {'cls': _make_other_class(), 'description': 'equally named module of another node'}})
+        if n3.errors:
+            raise MachineryError('the other node does not start: %r' % (n3.errors,))
+        other = _client(n3.port, True)
         rig = _Rig(drv, clients, pxclient, records, rnd)
         active2 = clients['proxy'][0].activate
         t_end = _time.time() + budget
@@ -1315,6 +1384,8 @@ def _e2e_batch(arg):
 
         for kind in PKINDS:
             base = BASE.get(kind, kind)
+            if kind == PKINDS[len(PKINDS) // 2]:
+                other._init_descriptive_data(dict(other.descriptive_data))   # e.g. after a reconnect
             for i in range(n_per_kind):
                 if _time.time() > t_end:
                     notes['aborted'] = 'time budget of %d s used up at kind %s' % (budget, kind)
@@ -1458,6 +1529,11 @@ def _e2e_batch(arg):
             n2.modules['px_io'].secnode.disconnect()
         except Exception:
             pass
+        try:
+            other.disconnect()
+            n3.close()
+        except Exception:
+            pass
         n2.close()
         n1.close()
     return records, notes
@@ -1498,10 +1574,12 @@ def _behaviours(chk, quick, pool):
     # wide alphabet to depth 2, callback-focused alphabet (one parameter, all levels / behaviours) one level deeper
     # ... and one parameter x every error class name of the SECoP table in error_update / error_read / error_change
     # ... and modules with custom accessibles named underscore + predefined name, with / without the plain one
-    cfgs = (('Gen_ClientCache_quick.cfg', 'Gen_ClientCache_cb_quick.cfg', 'Gen_ClientCache_err.cfg', 'Gen_ClientCache_names.cfg')
+    cfgs = (('Gen_ClientCache_quick.cfg', 'Gen_ClientCache_cb_quick.cfg', 'Gen_ClientCache_err.cfg', 'Gen_ClientCache_names.cfg',
+             'Gen_ClientCache_iso.cfg')
             if quick else
-            ('Gen_ClientCache_thorough.cfg', 'Gen_ClientCache_cb_thorough.cfg', 'Gen_ClientCache_err.cfg', 'Gen_ClientCache_names.cfg'))
-    gens = [(cfg, pool.submit(run_tlc, 'Gen_ClientCache', cfg, workers=1, timeout=1200)) for cfg in cfgs]
+            ('Gen_ClientCache_thorough.cfg', 'Gen_ClientCache_cb_thorough.cfg', 'Gen_ClientCache_err.cfg', 'Gen_ClientCache_names.cfg',
+             'Gen_ClientCache_iso.cfg'))
+    gens = [(cfg, pool.submit(run_tlc, 'Gen_ClientCache', cfg, workers=1, timeout=1200, heap='4g' if quick else '6g')) for cfg in cfgs]
     # deeper behaviours sampled by TLC's simulator from the same generation spec
     n, depth, scfg = (16, 10, 'Gen_ClientCache_sim_quick.cfg') if quick else (400, 14, 'Gen_ClientCache_sim_thorough.cfg')
     simrun = pool.submit(run_tlc, 'Gen_ClientCache', scfg, workers=1, timeout=900, simulate='num=%d' % n,
@@ -1544,13 +1622,13 @@ def run(chk):
         stage[name] = round(_time.time() - t0, 1)
         t0 = _time.time()
     from concurrent.futures import ThreadPoolExecutor
-    with ThreadPoolExecutor(6) as pool:     # the JVMs run side by side (each TLC run has one worker)
+    with ThreadPoolExecutor(8) as pool:     # the JVMs run side by side (each TLC run has one worker)
         list(pool.map(sany, ('ClientCache', 'Gen_ClientCache', 'Trace_ClientCache')))
         lap('sany')
         # 1 design check
         # one worker: TLCGet("level") in the depth bound is only exact (and the run deterministic) without parallel workers
         mc = pool.submit(model_check, 'ClientCache', 'MC_ClientCache_quick.cfg' if quick else 'MC_ClientCache_thorough.cfg',
-                         workers=1, timeout=1100)
+                         workers=1, timeout=1100, heap='4g' if quick else '6g')
         # 2 spec -> code
         collect = _behaviours(chk, quick, pool)
         behs, sim = collect()
@@ -1590,7 +1668,8 @@ def run(chk):
         chk.violation({'module': 'E2E', 'site': 'proxy factory', 'clause': 'proxy node can be configured'},
                       {'errors': n0['proxy_factory_errors'],
                        'config': "Mod('px', 'frappy.proxy.Proxy', 'proxy', remote_class=<class>, module='drv', uri='tcp://...')"})
-    verdicts, st, tr = validate_traces('Trace_ClientCache', traces + e2e_traces, 'Trace_ClientCache.cfg', timeout=1100, chunk=4000)
+    verdicts, st, tr = validate_traces('Trace_ClientCache', traces + e2e_traces, 'Trace_ClientCache.cfg', timeout=1100,
+                                      chunk=4000 if quick else 1200)   # one JVM in quick; bounded JSON per JVM (heap) in thorough
     chk.states += st
     chk.transitions += tr
     lap('trace_validation')
@@ -1671,15 +1750,15 @@ def replay(chk, rep):
     d = rep['detail']
     if 'behaviour' in d:
         beh = d['behaviour']
-        w = MsgWorld(beh[0]['desc'])
+        w = MsgWorld(beh[0]['desc'], beh[0].get('variant', 'a'))
         obs = w.run(beh[1:])
         for s, o in zip(beh[1:], obs):
             print(s, '->', json.dumps(o, default=str))
         print('expected at step', d['step'], ':', json.dumps(d['expected']))
         print('observed            :', json.dumps(d['observed']))
     elif 'trace' in d:
-        w = MsgWorld(d['trace'][0]['desc'])
-        steps = [{k: v for k, v in e.items() if k in ('ev', 'msg', 'cb', 'rk', 'now', 'desc')} for e in d['trace'][1:]]
+        w = MsgWorld(d['trace'][0]['desc'], d['trace'][0].get('variant', 'a'))
+        steps = [{k: v for k, v in e.items() if k in ('ev', 'msg', 'cb', 'rk', 'now', 'desc', 'variant')} for e in d['trace'][1:]]
         prev = False
         for st, e in zip(steps, d['trace'][1:]):     # same grouping of registrations as in the recorded run
             if st['ev'] == 'register':
